@@ -4,16 +4,16 @@ CONSTANTS
   Program <- GenProgram
   Role = "server"
   WBuf = 256
-  Shapes <- S_wmL_wmS
-  Ctl <- C_close_ping
-  Closer = FALSE
+  Shapes <- S_wmL
+  Ctl <- C_pingS2_ping
+  Closer = TRUE
   ControlTakesLock = TRUE
   FlushAtomic = TRUE
   LatchChecked = TRUE
-  CloseLatches = FALSE
-  TimeoutReleases = FALSE
+  CloseLatches = TRUE
+  TimeoutReleases = TRUE
   Fifo = TRUE
   OnlyBad = TRUE
-  Family = "atk_nolatch"
+  Family = "atk_timeout2s"
 INVARIANT Emit
 CHECK_DEADLOCK FALSE
